@@ -3,6 +3,8 @@
 // Contracts for the single-pass compiler's encoders and name resolution (yarel/src/compiler.rs, chunk.rs).
 // Everything between `//@fn … //@end` is replaced by the function text extracted from /repo on every run.
 use vstd::prelude::*;
+#[allow(unused_imports)]
+use std::mem;
 verus! {
 
 global size_of usize == 8;
